@@ -222,4 +222,45 @@ VARIANTS = [
      "new": "        if not (val in iter(self.enum_cls)):\n            if self._strict:\n"
             "                raise ValueError(f\"{val} is not a valid {self.enum_cls}\")\n            return val\n"
             "        member = self.enum_cls(val)\n        return member.name if pod else member\n"},
+
+    # ---------------------------------------------------------------- round 3: section tables merged with ** spreads
+    {"name": "P R4 optional glow fields moved into a section table spread in place", "expect": "silent",
+     "edits": [{"file": TMPL, "old": "PDATA_BLOCK_TEMPLATE = se.Template({\n",
+                "new": "_PDATA_GLOW = {\n"
+                       "    \"StartGlow\": PartDataOption(ParticleDataFlags.DATA_GLOW, se.QuantizedFloat(se.U8, 0.0, 1.0)),\n"
+                       "    \"EndGlow\": PartDataOption(ParticleDataFlags.DATA_GLOW, se.QuantizedFloat(se.U8, 0.0, 1.0)),\n"
+                       "}\n\nPDATA_BLOCK_TEMPLATE = se.Template({\n"},
+               {"file": TMPL,
+                "old": "    \"EndScaleY\": se.FixedPoint(se.U8, 3, 5),\n"
+                       "    \"StartGlow\": PartDataOption(ParticleDataFlags.DATA_GLOW, se.QuantizedFloat(se.U8, 0.0, 1.0)),\n"
+                       "    \"EndGlow\": PartDataOption(ParticleDataFlags.DATA_GLOW, se.QuantizedFloat(se.U8, 0.0, 1.0)),\n",
+                "new": "    \"EndScaleY\": se.FixedPoint(se.U8, 3, 5),\n    **_PDATA_GLOW,\n"}]},
+    {"name": "R4 section table with optional fields spread before the flags field", "expect": "C09.R4",
+     "edits": [{"file": TMPL, "old": "PDATA_BLOCK_TEMPLATE = se.Template({\n    \"PDataFlags\": PARTDATA_FLAGS,\n",
+                "new": "_PDATA_GLOW = {\n"
+                       "    \"StartGlow\": PartDataOption(ParticleDataFlags.DATA_GLOW, se.QuantizedFloat(se.U8, 0.0, 1.0)),\n"
+                       "    \"EndGlow\": PartDataOption(ParticleDataFlags.DATA_GLOW, se.QuantizedFloat(se.U8, 0.0, 1.0)),\n"
+                       "}\n\nPDATA_BLOCK_TEMPLATE = se.Template({\n    **_PDATA_GLOW,\n    \"PDataFlags\": PARTDATA_FLAGS,\n"},
+               {"file": TMPL,
+                "old": "    \"EndScaleY\": se.FixedPoint(se.U8, 3, 5),\n"
+                       "    \"StartGlow\": PartDataOption(ParticleDataFlags.DATA_GLOW, se.QuantizedFloat(se.U8, 0.0, 1.0)),\n"
+                       "    \"EndGlow\": PartDataOption(ParticleDataFlags.DATA_GLOW, se.QuantizedFloat(se.U8, 0.0, 1.0)),\n",
+                "new": "    \"EndScaleY\": se.FixedPoint(se.U8, 3, 5),\n"}]},
+
+    # ---------------------------------------------------------------- R6 pod forwarding
+    {"name": "R6 bitfield members decoded without the pod flag", "file": SER, "expect": "C09.R6",
+     "old": "k: self._schema[k].adapter.decode(v, ctx=ctx, pod=pod)", "new": "k: self._schema[k].adapter.decode(v, ctx=ctx)"},
+    {"name": "R6 subfield template reader built without the pod flag", "file": SER, "expect": "C09.R6",
+     "old": "r = BufferReader(cls.ENDIANNESS, buf, pod=pod)", "new": "r = BufferReader(cls.ENDIANNESS, buf)"},
+    {"name": "R6 adapter subfield serializer always asks for the object form", "file": SER, "expect": "C09.R6",
+     "old": "return cls.ADAPTER.decode(val, ctx=ParseContext(ctx_obj), pod=pod)",
+     "new": "return cls.ADAPTER.decode(val, ctx=ParseContext(ctx_obj), pod=False)"},
+    {"name": "P R6 pod passed positionally", "file": SER, "expect": "silent",
+     "old": "return cls.ADAPTER.decode(val, ctx=ParseContext(ctx_obj), pod=pod)",
+     "new": "return cls.ADAPTER.decode(val, ParseContext(ctx_obj), pod)"},
+    {"name": "P R6 pod through a local and a branch", "file": SER, "expect": "silent",
+     "old": "        return self._choose_option(ctx).decode(val, ctx=ctx, pod=pod)\n",
+     "new": "        option = self._choose_option(ctx)\n        want_pod = bool(pod)\n"
+            "        if pod:\n            return option.decode(val, ctx=ctx, pod=True)\n"
+            "        return option.decode(val, ctx=ctx, pod=want_pod)\n"},
 ]
